@@ -48,14 +48,20 @@ func zzC01ConsData(h *types.Header) (*BlockConsensusData, error) {
 	return zzC01HdrCon, nil
 }
 
-func zzC01Extract(h *types.Header, backType params.LookBackType) (*UconValidators, error) { return zzC01UV, nil }
+func zzC01Extract(h *types.Header, backType params.LookBackType) (*UconValidators, error) {
+	return zzC01UV, nil
+}
 
 // keys are small identities carried in X
 func zzC01Key(id byte) *ecdsa.PublicKey { return &ecdsa.PublicKey{X: big.NewInt(int64(id))} }
 
-func zzC01ProposerKey(d *BlockConsensusData) (*ecdsa.PublicKey, error) { return zzC01Key(zzC01Proposer), nil }
+func zzC01ProposerKey(d *BlockConsensusData) (*ecdsa.PublicKey, error) {
+	return zzC01Key(zzC01Proposer), nil
+}
 
-func zzC01VRF(pk *ecdsa.PublicKey) (vrf.PublicKey, error) { return zzC04PK{key: byte(pk.X.Uint64())}, nil }
+func zzC01VRF(pk *ecdsa.PublicKey) (vrf.PublicKey, error) {
+	return zzC04PK{key: byte(pk.X.Uint64())}, nil
+}
 
 func zzC01Addr(p ecdsa.PublicKey) common.Address { return common.Address{0xA0, byte(p.X.Uint64())} }
 
@@ -63,8 +69,12 @@ func zzC01RlpHash(x interface{}) common.Hash { return common.Hash{0xBB} }
 
 // quorum: an unknown function of (committee size, kind of quorum); the arithmetic of the
 // real OverThreshold is the subject of C03's lemma
-func zzC01Quorum(threshold uint64, isPos bool) uint32 { return uint32(zzverif.UF("quorum", threshold, isPos)) }
-func zzC01Over(count uint32, threshold uint64, isPos bool) bool { return count >= zzC01Quorum(threshold, isPos) }
+func zzC01Quorum(threshold uint64, isPos bool) uint32 {
+	return uint32(zzverif.UF("quorum", threshold, isPos))
+}
+func zzC01Over(count uint32, threshold uint64, isPos bool) bool {
+	return count >= zzC01Quorum(threshold, isPos)
+}
 
 type zzC01BlsPK struct{ id byte }
 
@@ -150,6 +160,27 @@ func zzH_C01_votes3() {
 
 var zzC01Three bool
 
+// zzH_C01_votes_secp: the branch for protocol versions without BLS: every vote carries its own
+// secp256k1 signature, the signer is whoever the signature recovers to.
+//
+//verif:replace $M/consensus/ucon.GetSignaturePublicKey zzC01Recovered
+func zzH_C01_votes_secp() {
+	zzC01NoBls = true
+	zzC01Run(false)
+}
+
+var zzC01NoBls bool
+
+// signature recovery: an arbitrary signature recovers to an arbitrary key (almost never a
+// validator's), and that key did sign the payload - or recovery fails
+func zzC01Recovered(data []byte, sig []byte) (*ecdsa.PublicKey, error) {
+	if len(sig) != 2 || sig[1] != 0 {
+		return nil, errors.New("invalid signature")
+	}
+	zzverif.Assume(zzC01Signed(sig[0], data))
+	return zzC01Key(sig[0]), nil
+}
+
 func zzC01Run(whole bool) {
 	// look-back validator set: two validators, symbolic role / status / stake (descending order fixed)
 	var list []*state.Validator
@@ -176,7 +207,7 @@ func zzC01Run(whole bool) {
 	total := stat.GetStakeByKind(params.KindChamber)
 	zzverif.Assume(total.Sign() > 0)
 
-	cp := &params.CaravelParams{EnableBls: true, ProposerThreshold: uint64(zzverif.U16("cp.proposerThreshold")), ValidatorThreshold: uint64(zzverif.U16("cp.validatorThreshold"))}
+	cp := &params.CaravelParams{EnableBls: !zzC01NoBls, ProposerThreshold: uint64(zzverif.U16("cp.proposerThreshold")), ValidatorThreshold: uint64(zzverif.U16("cp.validatorThreshold"))}
 	zzC01Seed, zzC01Hdr = &types.Header{Number: big.NewInt(4)}, &types.Header{Number: big.NewInt(9)}
 	var seed, prio common.Hash
 	copy(seed[:], zzverif.Bytes("seed", 32))
@@ -199,7 +230,11 @@ func zzC01Run(whole bool) {
 	}
 	uv := &UconValidators{RoundIndex: zzverif.U32("uv.roundIndex"), SCAggrSig: []byte{1}}
 	for k := 0; k < nvotes; k++ {
-		uv.ChamberCommitters = append(uv.ChamberCommitters, SingleVote{VoterIdx: zzverif.U32("vote.voterIdx"), Votes: zzverif.U32("vote.votes"), Proof: zzverif.Bytes("vote.proof", 8)})
+		sv := SingleVote{VoterIdx: zzverif.U32("vote.voterIdx"), Votes: zzverif.U32("vote.votes"), Proof: zzverif.Bytes("vote.proof", 8)}
+		if zzC01NoBls {
+			sv.Signature = zzverif.Bytes("vote.signature", 2)
+		}
+		uv.ChamberCommitters = append(uv.ChamberCommitters, sv)
 	}
 	zzC01UV = uv
 	s := &Server{blsMgr: zzC01Mgr{}, blsVerifier: &BlsVerifier{}}
@@ -229,7 +264,11 @@ func zzC01Run(whole bool) {
 		seats := zzverif.UF("seats", common.Hash(zzverif.UF32("vrfValue", id, m)), val.Stake.Int64(), pProto)
 		var anyValid []bool
 		for _, vt := range uv.ChamberCommitters {
-			anyValid = append(anyValid, zzverif.All(vt.VoterIdx == uint32(i), zzC01ProofOK(id, m, vt.Proof), uint64(vt.Votes) == seats, vt.Votes > 0))
+			isVoter := vt.VoterIdx == uint32(i)
+			if zzC01NoBls {
+				isVoter = len(vt.Signature) == 2 && vt.Signature[1] == 0 && vt.Signature[0] == id
+			}
+			anyValid = append(anyValid, zzverif.All(isVoter, zzC01ProofOK(id, m, vt.Proof), uint64(vt.Votes) == seats, vt.Votes > 0))
 		}
 		counted := zzverif.All(zzverif.Any(anyValid...), zzC01Signed(id, payload))
 		eligible := val.Kind() == params.KindChamber && val.IsOnline()
